@@ -30,7 +30,9 @@ fn esc(s: &str) -> String {
 }
 
 fn emit(id: usize, f: impl FnOnce() -> String) {
-    match std::panic::catch_unwind(std::panic::AssertUnwindSafe(f)) {
+    let r = std::panic::catch_unwind(std::panic::AssertUnwindSafe(f));
+    any_spawner::Executor::poll_local();
+    match r {
         Ok(s) => println!("{{\"variant\":{},\"outcome\":\"Ok\",\"html\":\"{}\"}}", id, esc(&s)),
         Err(e) => {
             let msg = if let Some(s) = e.downcast_ref::<&str>() { s.to_string() } else if let Some(s) = e.downcast_ref::<String>() { s.clone() } else { "panic".to_string() };
@@ -40,10 +42,14 @@ fn emit(id: usize, f: impl FnOnce() -> String) {
 }
 
 __VARIANTS__
+__STEXEC__
 
 fn main() {
-    std::panic::set_hook(Box::new(|_| {}));
-    let _ = any_spawner::Executor::init_futures_executor();
+    std::panic::set_hook(Box::new(|info| {
+        // the thread and a backtrace go to stderr (recorded with the event when a render panics)
+        eprintln!("PANIC thread={:?} {}\n{}", std::thread::current().name(), info, std::backtrace::Backtrace::force_capture());
+    }));
+    st_exec::init();
 __CALLS__
 }
 '''
@@ -82,11 +88,17 @@ def make_project(name, strings, namespaces):
                 "        let v = view! { <I18nContextProvider enable_cookie=false ssr_lang_header_getter=leptos_i18n::context::UseLocalesOptions::default().ssr_lang_header_getter(|| None)>",
                 "            {move || { let i18n = use_i18n(); let mut views: Vec<AnyView> = vec![];"]
         for loc, ns in touches:
-            body.append("                i18n.set_locale_untracked(Locale::%s); views.push((t!(i18n, %s))().into_any());" % (loc, key_of_unit[ns]))
+            # (the default locale through the context, the other one with an explicit locale: writing the context's locale signal in the
+            # middle of a render races with the library's own isomorphic effect that reads it on an executor thread - reactive_graph
+            # then reports the failed non-blocking write as "already disposed")
+            if loc == "en":
+                body.append("                views.push((t!(i18n, %s))().into_any());" % key_of_unit[ns])
+            else:
+                body.append("                views.push(td!(Locale::%s, %s).into_any());" % (loc, key_of_unit[ns]))
         body += ["                views }}", "        </I18nContextProvider> };", "        v.to_html()", "    });", "    std::mem::forget(owner);", "    out", "}"]
         fns.append("\n".join(body))
         calls.append("    emit(%d, variant_%d);" % (vi, vi))
-    main = MAIN.replace("__VARIANTS__", "\n\n".join(fns)).replace("__CALLS__", "\n".join(calls))
+    main = MAIN.replace("__VARIANTS__", "\n\n".join(fns)).replace("__CALLS__", "\n".join(calls)).replace("__STEXEC__", probe.ST_EXEC)
     return {"name": name, "cfg": cfg, "files": files, "main": main, "variants": variants,
             "abs": {"strings": strings, "namespaces": namespaces}}
 
@@ -155,6 +167,7 @@ def check(run):
             base = {"ev": "Script", "case": pi + 1, "variant": ev["variant"], "touched": touched, "outcome": ev["outcome"]}
             if ev["outcome"] != "Ok":
                 base["panic"] = ev.get("html", "")[:300]
+                base["stderr"] = r.get("stderr", "")[-6000:]
                 trace.append(base)
                 continue
             html = ev["html"]
